@@ -615,6 +615,9 @@ impl Kernel {
     fn draw_outcome(&mut self, fd: i32, max: usize, data: bool) -> Outcome {
         if let Some(q) = self.counts.get_mut(&fd) {
             if let Some(c) = q.pop_front() {
+                if c < 0 || (c as usize) < max {
+                    crate::report::nontrivial();
+                }
                 return if c < 0 {
                     let e = (-c) as i32;
                     if e == libc::EINTR || e == libc::ECANCELED {
